@@ -289,30 +289,61 @@ def run(eng, R):
 
     # ---------------------------------------------------------------- E9: nothing clears the loaded results after they were installed
     R.rule("E9", "in the fit reader no call that clears the loaded results (a fit mutator) can follow the installation of the stored fit results", 1)
-    g = eng.cfg(fr)
+    R.rule("E12", "the reader applies the stored parameter values after it re-fixes parameters (fix_parameter(name, value) resets the value to the one recorded when it was "
+                  "fixed; the current value is only in the stored results)", 1)
     XF = p.find_class("XYFit")
+    # the function of the reader class that installs the results (the reader itself, or a helper its tail was moved into) and the name the fit has there
+    host, fitvar = None, None
+    for m in p.find_class("FitYamlReader").all_methods().values():
+        if not hasattr(m, "node"):
+            continue
+        for n in ast.walk(m.node):
+            if isinstance(n, ast.Assign):
+                for t in n.targets:
+                    if isinstance(t, ast.Attribute) and t.attr == "_loaded_result_dict" and isinstance(t.value, ast.Name):
+                        host, fitvar = m, t.value.id
+    if host is None:
+        raise AnalysisError("FitYamlReader: installation of the loaded results not found")
+    g = eng.cfg(host)
 
     def installs(n):
         st = n.stmt
-        return n.kind == "stmt" and isinstance(st, ast.Assign) and any(isinstance(t, ast.Attribute) and t.attr == "_loaded_result_dict" and isinstance(t.value, ast.Name) and t.value.id == "_fit_object" for t in st.targets)
+        return n.kind == "stmt" and isinstance(st, ast.Assign) and any(isinstance(t, ast.Attribute) and t.attr == "_loaded_result_dict" and isinstance(t.value, ast.Name) and t.value.id == fitvar for t in st.targets)
 
     inst = [n for n in g.stmt_nodes() if installs(n)]
-    if not inst:
-        raise AnalysisError("FitYamlReader: installation of the loaded results not found")
-    clearing = {}
+    clearing, fixing, valuing = {}, set(), set()
     for n in g.stmt_nodes():
         for c in eng.calls_in_parts(n.ast_parts()):
-            if isinstance(c.func, ast.Attribute) and isinstance(c.func.value, ast.Name) and c.func.value.id == "_fit_object":
+            if not isinstance(c.func, ast.Attribute):
+                continue
+            recv = c.func.value
+            on_fit = isinstance(recv, ast.Name) and recv.id == fitvar
+            on_fitter = isinstance(recv, ast.Attribute) and recv.attr == "_fitter" and isinstance(recv.value, ast.Name) and recv.value.id == fitvar
+            if on_fit:
                 m = XF.find_method(c.func.attr)
                 if m is not None and "_loaded_result_dict" in eng.eff.trans_writes(XF, m):
                     clearing[n.id] = c.func.attr
+                if c.func.attr == "fix_parameter":
+                    fixing.add(n.id)
+            if (on_fit and c.func.attr in ("set_all_parameter_values", "set_parameter_values")) or (on_fitter and c.func.attr in ("set_all_fit_parameter_values", "set_fit_parameter_values")):
+                valuing.add(n.id)
     bad = None
     for n in inst:
         pth = g.find_path(n.id, lambda k: k.id in clearing, exceptional=False)
         if pth is not None:
             bad = (n, pth[-1])
-    R.ob("E9", "FitYamlReader:results installed last", bad is None, (fr.file, bad[0].lineno if bad else fr.lineno),
-         "after the stored fit results are installed the reader still calls _fit_object.%s(), which clears them: a reloaded fit with that feature reports did_fit=False and no uncertainties" % (clearing.get(bad[1].id) if bad else ""))
+    R.ob("E9", "FitYamlReader:results installed last", bad is None, (host.file, bad[0].lineno if bad else host.lineno),
+         "after the stored fit results are installed the reader still calls %s.%s(), which clears them: a reloaded fit with that feature reports did_fit=False and no uncertainties" % (fitvar, clearing.get(bad[1].id) if bad else ""))
+    if not fixing:
+        raise AnalysisError("FitYamlReader: re-fixing of parameters not found next to the installation of the results (%s)" % host.qualname)
+    bad = None
+    for v in valuing:
+        pth = g.find_path(v, lambda k: k.id in fixing, exceptional=False)
+        if pth is not None:
+            bad = pth
+    R.ob("E12", "FitYamlReader:stored values after fixing", bad is None, (host.file, bad[0].lineno if bad else host.lineno),
+         "the stored parameter values are applied before the parameters are re-fixed: fix_parameter(name, recorded value) then resets a fixed parameter whose value was changed "
+         "after fixing, and the reloaded fit differs from the saved one")
 
     # ---------------------------------------------------------------- E10: exact collapse of constant error vectors
     R.rule("E10", "an uncertainty vector is written as a single number only if all entries are exactly equal (no tolerance)", 1)
